@@ -268,6 +268,7 @@ func Walk(v Visitor, node ast.Node) {
 
 	case *ast.TypeAssertion:
 		Walk(v, n.Expr)
+		Walk(v, n.Type)
 
 	case *ast.TypeDeclaration:
 		Walk(v, n.Ident)
